@@ -13,7 +13,9 @@ int main(void) {
     printf(" \"header_size\": %d, \"section_entry_size\": %d, \"function_entry_size\": %d, \"debug_entry_size\": %d, \"import_entry_base_size\": %d,\n",
            NVM_HEADER_SIZE, NVM_SECTION_ENTRY_SIZE, NVM_FUNCTION_ENTRY_SIZE, NVM_DEBUG_ENTRY_SIZE, NVM_IMPORT_ENTRY_BASE_SIZE);
     printf(" \"max_sections\": %d, \"max_strings\": %d, \"max_functions\": %d,\n", NVM_MAX_SECTIONS, NVM_MAX_STRINGS, NVM_MAX_FUNCTIONS);
-    printf(" \"vm_stack_initial\": %d, \"vm_max_frames\": %d, \"vm_max_globals\": %d\n", VM_STACK_INITIAL, VM_MAX_FRAMES, VM_MAX_GLOBALS);
+    printf(" \"vm_stack_initial\": %d, \"vm_max_frames\": %d, \"vm_max_globals\": %d,\n", VM_STACK_INITIAL, VM_MAX_FRAMES, VM_MAX_GLOBALS);
+    printf(" \"vm_err\": {\"ok\": %d, \"stackOverflow\": %d, \"stackUnderflow\": %d, \"callDepth\": %d, \"invalidOpcode\": %d, \"typeError\": %d, \"outOfBounds\": %d, \"divZero\": %d, \"assertFailed\": %d, \"undefinedGlobal\": %d, \"undefinedFunction\": %d, \"notImplemented\": %d, \"memory\": %d, \"decode\": %d}\n",
+           VM_OK, VM_ERR_STACK_OVERFLOW, VM_ERR_STACK_UNDERFLOW, VM_ERR_CALL_DEPTH, VM_ERR_INVALID_OPCODE, VM_ERR_TYPE_ERROR, VM_ERR_OUT_OF_BOUNDS, VM_ERR_DIV_ZERO, VM_ERR_ASSERT_FAILED, VM_ERR_UNDEFINED_GLOBAL, VM_ERR_UNDEFINED_FUNCTION, VM_ERR_NOT_IMPLEMENTED, VM_ERR_MEMORY, VM_ERR_DECODE);
     printf("}\n");
     return 0;
 }
